@@ -4,8 +4,8 @@ CONSTANTS
   MaxR = 4
   PT <- PTLive
   Modes = {"run"}
-  ChainedSet = {TRUE, FALSE}
-  Starts = {0, 2}
+  ChainedSet = {FALSE}
+  Starts = {1}
   Targets = {0, 3}
   Corruptions <- NoCorruption
   NT = 1
